@@ -53,11 +53,11 @@ def configs(tier, seed):
     out.append({"name": "closed-backsweep", "kind": "closed", "nc": 1, "nw": 1, "scales": False, "normalize": False, "nr": 1,
                 "nt": 1, "backsweep": True})
     for shift in (False, True):
-        for cd, wd in [(0, 0), (1, 0), (1, 1)] + ([(2, 1), (3, 2)] if big else []):
+        for cd, wd in [(0, 0), (1, 0), (1, 1), (0, 1)] + ([(2, 1), (3, 2), (1, 2)] if big else []):
             for wn in (False, True):
                 if not shift and cd == 0 and wd == 0:
                     continue
-                if cd == 0 and wn:
+                if cd == 0 and wd == 0 and wn:
                     continue
                 out.append({"name": f"plumbing-{'shift' if shift else 'noshift'}-cd{cd}-wd{wd}-{'wn' if wn else 'wl'}",
                             "kind": "plumbing", "shift": shift, "cd": cd, "wd": wd, "wavenumber": wn, "ng": 3 if big else 2,
